@@ -261,6 +261,14 @@ func pinnedCases() []pinned {
 		out = append(out, pinned{File: "C18/header_case_variant_declared_twice.json", Doc: &c18Case{Property: "C18", Schema: s}})
 	}
 	{
+		s, _, _, _, svc := baseSchema("p0049")
+		svc.Headers = []*schema.Header{{Name: "X-Tenant", Type: "string", Required: true, Description: "the \"tenant\" id", Example: "C:\\temp"}}
+		out = append(out, pinned{File: "C12/header_text_with_quotes_refused_by_go_http.json", Doc: &c12Case{Property: "C12", Kind: "valid", Plugin: "protoc-gen-go-http", Schema: s}})
+		s2, _, _, _, svc2 := baseSchema("p0050")
+		svc2.Headers = []*schema.Header{{Name: "X-Tenant", Type: "string", Required: true, Description: "line one\nline two"}}
+		out = append(out, pinned{File: "C12/multiline_header_description_refused_by_go_client.json", Doc: &c12Case{Property: "C12", Kind: "valid", Plugin: "protoc-gen-go-client", Schema: s2}})
+	}
+	{
 		// two RPCs without an explicit path under a base_path: both are published at the base path
 		s, _, _, m, svc := baseSchema("p0045")
 		svc.BasePath = "/api/v1"
